@@ -126,6 +126,29 @@ def table_cell(P, A):
     return sig is None
 
 
+def two_messages_cell(P, A):
+    """Two recognised message elements in one document: whatever class the library picks, it picks the same one
+    under every warning configuration, and nothing but a MosRoMgrException may escape."""
+    from mosromgr.exc import MosRoMgrException
+    t1, t2 = TAGS[A['i']], TAGS[A['j']]
+    root = E('mos', T('mosID', 'm'), T('messageID', '7'), base_element(t1, 'std', A), base_element(t2, 'std', A))
+    results = {m: classify_under(root, m) for m in ('ignore', 'error', 'always')}
+    B.hit()
+    sig = None
+    ref = results['ignore']
+    for mode, (kind, val) in results.items():
+        if kind == 'exc' and not isinstance(val, MosRoMgrException):
+            sig = '%s-filter:escaped-%s' % (mode, type(val).__name__)
+        elif kind != ref[0] or (kind == 'ok' and val != ref[1]) or (kind == 'exc' and type(val) is not type(ref[1])):
+            sig = 'outcome-depends-on-warning-filter'
+    if sig is None and ref[0] == 'ok' and ref[1] not in (TAG_CLASS.get(t1, 'EAStoryMove'), TAG_CLASS.get(t2, 'EAStoryMove')):
+        sig = 'class-of-neither-element'
+    if B.Ctx.replay:
+        B.note(sig=sig, observed={m: (v if k == 'ok' else B.conc(v)) for m, (k, v) in results.items()},
+               expected='the same outcome under every warning filter', tags=[t1, t2])
+    return sig is None
+
+
 def free_tag_cell(P, A):
     """(b) a single top-level element with a solver-chosen tag: a class iff the tag is a known one."""
     WEAK[0] = bool(P.get('weak'))
@@ -158,25 +181,36 @@ def ea_cell(P, A):
     kids = [T('roID', 'r')]
     if tshape != 'absent':
         tk = {'empty': [], 's': [T('storyID', sid)], 's+i': [T('storyID', sid), T('itemID', sid)],
+              's-then-s+i': [T('storyID', sid)], 's+i-then-s': [T('storyID', sid), T('itemID', sid)],
               's+ii': [T('storyID', sid), T('itemID', sid), T('itemID', 'j')],
               'blank-s+blank-i': [T('storyID', None), T('itemID', None)],
               'blank-s': [T('storyID', None)]}[tshape]
         kids.append(E('element_target', *tk))
+        # a second element_target: the first one is the one the accessors and the merge use, so it decides
+        if tshape == 's-then-s+i':
+            kids.append(E('element_target', T('storyID', sid), T('itemID', 'second')))
+        if tshape == 's+i-then-s':
+            kids.append(E('element_target', T('storyID', 'second')))
     if sshape != 'absent':
         sk = {'empty': [], 'ids': [T('storyID', 'a'), T('storyID', sid)],
               'iids': [T('itemID', 'a'), T('itemID', sid)],
               'stories': [E('story', T('storyID', sid), E('item', T('itemID', 'nested')))],
               'items': [E('item', T('itemID', sid))],
-              'sid+iid': [T('storyID', 'a'), T('itemID', sid)]}[sshape]
+              'sid+iid': [T('storyID', 'a'), T('itemID', sid)],
+              'ids-then-iids': [T('storyID', 'a'), T('storyID', sid)], 'iids-then-ids': [T('itemID', 'a'), T('itemID', sid)]}[sshape]
         kids.append(E('element_source', *sk))
+        if sshape == 'ids-then-iids':
+            kids.append(E('element_source', T('itemID', 'second')))
+        if sshape == 'iids-then-ids':
+            kids.append(E('element_source', T('storyID', 'second')))
     attrib = {} if op is None else {'operation': op}
     if P.get('extra_attr'):
         attrib['zz'] = 'REPLACE'
     root = E('mos', T('mosID', 'm'), T('messageID', '7'), E('roElementAction', *kids, **attrib))
     results = {m: classify_under(root, m) for m in ('ignore', 'error')}
     B.hit()
-    t_item = tshape in ('s+i', 's+ii', 'blank-s+blank-i')
-    s_item = sshape in ('iids', 'sid+iid')
+    t_item = tshape in ('s+i', 's+ii', 'blank-s+blank-i', 's+i-then-s')
+    s_item = sshape in ('iids', 'sid+iid', 'iids-then-ids')
     want = EA_TABLE.get((op, t_item, s_item)) if sshape != 'absent' else None
     sig = verdict(results, want)
     report(results, want, sig)
